@@ -44,8 +44,14 @@ TRUSTED_BASE = [
     "picked), not part of it",
 ]
 ASSUMPTIONS = [
-    "positive theorems assume transport parameters never lower a flow-control value the connection already holds "
-    "(RFC 9000 7.4.1 for accepted 0-RTT); the complement is refuted with a witness (open known finding C06-F1)",
+    "as-is _parse_transport_parameters (op 6, trees without the repair of C06-F1): positive theorems assume transport "
+    "parameters never lower a flow-control value the connection already holds (RFC 9000 7.4.1 for accepted 0-RTT); the "
+    "complement is refuted with a witness (finding C06-F1).  Repaired function (op 18, fed when the probe finds "
+    "tls.early_data_accepted in the function): no assumption on the values when 0-RTT was accepted; when it was not, the "
+    "values are varints and no peer-initiated stream exists yet (checked by the driver on every scenario); restoring "
+    "from a ticket happens on a fresh connection",
+    "STREAMS_BLOCKED correctness is proved for states in which _unblock_streams has run since max_streams last changed "
+    "(from handshake completion on); WHEN the frame is sent (_streams_blocked_pending) is an input of the model",
     "frame-level theorems assume each emitted frame receives at most one delivery outcome (C08 callbacks_at_most_once)",
     "stream discarding (_streams.pop of finished streams) and re-creation of a discarded stream id are not modelled",
 ]
@@ -54,6 +60,20 @@ BIG = 1 << 30
 SIM_SEED_BASE = 600
 
 KNOWN_HITS = collections.Counter()   # measured: scenarios per known-finding id (decided by known_findings.json)
+PROTOCOL_VIOLATION = 0xA
+
+
+def repaired_f1():
+    """PROBE of the tree under check: does _parse_transport_parameters consult tls.early_data_accepted (the repair of
+    finding C06-F1)?  If so the model is fed the transcription of the repaired function (op 18, `OParamsP`), otherwise
+    the one of the function as it was (op 6, `OParams`).  A tree that holds only part of the repair is still compared
+    with the full `OParamsP`, and a tree without it with `OParams`: nothing is accepted by the probe itself."""
+    import inspect
+    from aioquic.quic.connection import QuicConnection
+    try:
+        return "early_data_accepted" in inspect.getsource(QuicConnection._parse_transport_parameters)
+    except (OSError, TypeError):
+        return False
 
 
 def data_for(sid, off, n):
@@ -73,6 +93,7 @@ class _Rec:
         self.last_frame_op = None   # index into self.chunks of the last received-frame op
         self.chunks = []        # per op: [tin, tout]
         self.closed = None        # error code of the subject's own CONNECTION_CLOSE
+        self.params_op = None     # index into self.chunks of the handshake transport-parameters op
         self.peer_closed = None   # error code of a CONNECTION_CLOSE sent by the real peer (handshake phase)
 
     def op(self, name, tin, tout):
@@ -118,6 +139,7 @@ def run_scenario(case, fair=True):
     from aioquic.buffer import Buffer
 
     logging.getLogger("quic").setLevel(logging.CRITICAL)
+    repaired = repaired_f1()
     seed = SIM_SEED_BASE + int(case.get("seed", 0))
     zero = case.get("zero")
     store = None
@@ -218,8 +240,25 @@ def run_scenario(case, fair=True):
             sync()
             if event == "packet_received":
                 R.framelists.append([data["frames"], 0])
+            elif event == "packet_sent":
+                # the STREAMS_BLOCKED step of _write_application (neither max_streams nor the blocked lists change between
+                # the step and this event, which is logged at the end of the same datagrams_to_send call)
+                for fr in data["frames"]:
+                    if fr.get("frame_type") == "streams_blocked":
+                        R.op("streams_blocked", [19, int(fr["stream_type"] == "unidirectional")], [8, 1, fr["limit"]])
             elif event == "parameters_set" and data.get("owner") == "remote":
-                R.op("params", [6] + _params_tokens(data), [0])
+                if repaired:
+                    # PEEK: tls.early_data_accepted (what the repaired function branches on; the same value is
+                    # published afterwards in the HandshakeCompleted event)
+                    acc = bool(holder["conn"].tls.early_data_accepted)
+                    if not acc and any((sid & 1) != 0 for sid in holder["conn"]._streams):   # PEEK
+                        # guard of the model's operation (pguard, OParamsP PRejected): every stream existing when the
+                        # handshake parameters are processed was opened by the subject (a client)
+                        R.op("GUARD-BROKEN-peer-stream-before-handshake-parameters", [], ["guard-broken"])
+                    R.params_op = R.op("params_accepted" if acc else "params_not_accepted",
+                                       [18, 1 if acc else 2] + _params_tokens(data), [0])
+                else:
+                    R.params_op = R.op("params", [6] + _params_tokens(data), [0])
         return saved[4](self, category=category, event=event, data=data)
 
     def w_get_stop_frame(self):
@@ -252,12 +291,24 @@ def run_scenario(case, fair=True):
         holder["conn"] = conn
         orig_call = client.call
 
+        queue_bad = []       # violations of the service order (PEEK-based implementation oracle, see queue_order_check)
+        queue_stats = collections.Counter()
+
         def call(name, *a, **k):
             R.depth += 1
+            snap = None
+            if name == "datagrams_to_send":
+                # PEEK: _streams_queue and the highest offsets before the call
+                snap = ([st.stream_id for st in conn._streams_queue],
+                        {st.stream_id: st.sender.highest_offset for st in conn._streams_queue})
             try:
                 return orig_call(name, *a, **k)
             finally:
                 R.depth -= 1
+                if snap is not None:
+                    after = [st.stream_id for st in conn._streams_queue]                                  # PEEK
+                    hi = {st.stream_id: st.sender.highest_offset for st in conn._streams_queue}           # PEEK
+                    queue_order_check(snap[0], snap[1], after, hi, queue_bad, queue_stats)
         client.call = call
 
         # independent timeline for the oracle: every datagram the subject sends, with the number of datagrams
@@ -426,7 +477,7 @@ def run_scenario(case, fair=True):
                 if ext_type == tls.ExtensionType.QUIC_TRANSPORT_PARAMETERS and tkt.max_early_data_size == 0xFFFFFFFF:
                     qp = pull_quic_transport_parameters(Buffer(data=ext_data))
                     d = {"initial_" + n: getattr(qp, "initial_" + n) for n in _PNAMES}
-                    R.op("params_remembered", [6] + _params_tokens(d), [0])
+                    R.op("params_remembered", ([18, 0] if repaired else [6]) + _params_tokens(d), [0])
                     break
         observe()
         for step in (zero or {}).get("early", []):
@@ -438,6 +489,10 @@ def run_scenario(case, fair=True):
         pair.pump(client)
         pair.run(lambda p: p.client.handshake_completed and p.server.handshake_completed, max_time=30)
         pair.run_until_idle(max_time=20)
+        if (check_closed() == PROTOCOL_VIOLATION and R.params_op is not None and not R.hc
+                and R.names[R.params_op] == "params_accepted"):
+            # the subject refused the handshake parameters (the error is raised after the qlog event the op was read from)
+            R.chunks[R.params_op][1] = [4, R.closed]
         observe()
         handshake_ok = client.handshake_completed and check_closed() is None and R.peer_closed is None
         progress = None
@@ -497,11 +552,38 @@ def run_scenario(case, fair=True):
             "client_addr": client.addr, "writes": dict(writes), "fins": set(fins), "killed": set(killed),
             "progress": progress, "closed": R.closed, "peer_closed": R.peer_closed, "handshake_ok": handshake_ok,
             "undecrypted": sum(1 for p in pair.observer.packets if p.direction == "c2s" and not p.decrypted and p.type != "padding"),
+            "queue_bad": queue_bad, "queue_stats": dict(queue_stats),
         }
         return {"tin": tin, "tout": tout, "names": R.names, "wire": wire, "api_errors": api_errors}
     finally:
         S.get_frame, S.get_reset_frame, S.on_data_delivery, S.on_reset_delivery, T.log_event = saved
         RV.get_stop_frame, RV.on_stop_sending_delivery = saved_rv
+
+
+def queue_order_check(before, hi_before, after, hi_after, bad, stats):
+    """Implementation oracle for the service order (statement of queue_rotation_fair, coq/props/C06.v), over labelled
+    peeks at _streams_queue around ONE datagrams_to_send call (any number of packets): a stream that stayed in the queue
+    and whose highest offset did not rise is never overtaken -- the streams ahead of it afterwards are exactly those
+    ahead of it before, minus the ones that were served with new data or discarded."""
+    aset = set(after)
+    served = {sid for sid in before if sid in aset and hi_after.get(sid, 0) > hi_before.get(sid, 0)}
+    stats["transmit_calls"] += 1
+    if served:
+        stats["transmit_calls_with_rotation"] += 1
+    if len(set(after)) != len(after) or not aset <= set(before):
+        bad.append("_streams_queue after a transmit is not a duplicate-free subset of the queue before: %r -> %r" % (before, after))
+        return
+    for s in before:
+        if s not in aset or s in served:
+            continue
+        exp = [x for x in before[:before.index(s)] if x in aset and x not in served]
+        got = after[:after.index(s)]
+        if got != exp:
+            bad.append("stream %d was not served, yet the streams ahead of it changed from %r to %r (served: %r)"
+                       % (s, before[:before.index(s)], got, sorted(served)))
+            return
+        if len(exp) < before.index(s):
+            stats["unserved_stream_moved_forward"] += 1
 
 
 _PNAMES = ["max_data", "max_stream_data_bidi_local", "max_stream_data_bidi_remote", "max_stream_data_uni",
@@ -575,6 +657,22 @@ def wire_oracle(w, stats=None):
                 continue
             early = p.type == "0rtt"
             for f in p.frames:
+                if f.name in ("DATA_BLOCKED", "STREAM_DATA_BLOCKED"):
+                    stats["data_blocked_frames"] += 1        # aioquic has no code that writes them
+                if f.name in ("STREAMS_BLOCKED_BIDI", "STREAMS_BLOCKED_UNI"):
+                    # sent only when really blocked at that limit, and it carries the limit in force
+                    uni = f.name.endswith("UNI")
+                    stats["streams_blocked_frames_judged"] += 1
+                    lim_now = (Rm[5] if uni else Rm[4]) if early else ms[1 if uni else 0]
+                    sigb = {"frame": f.name, "zero_rtt_packet": early, "after_zero_rtt_lowered": lowered and not early}
+                    if f.fields["limit"] != lim_now:
+                        bad.append(("%s carries limit %d but the limit in force is %d" % (f.name, f.fields["limit"], lim_now),
+                                    dict(sigb, rule="blocked_frame_limit")))
+                    tried = [sid for sid in set(w["writes"]) | set(w["killed"])
+                             if sid % 2 == 0 and bool(sid & 2) == uni and sid // 4 >= f.fields["limit"]]
+                    if not tried:
+                        bad.append(("%s (limit %d) although the application never used a stream beyond that limit"
+                                    % (f.name, f.fields["limit"]), dict(sigb, rule="blocked_frame_spurious")))
                 if f.name not in ("STREAM", "RESET_STREAM", "STOP_SENDING", "MAX_STREAM_DATA", "STREAM_DATA_BLOCKED"):
                     continue
                 sid = f.fields["stream_id"]
@@ -640,6 +738,10 @@ def wire_oracle(w, stats=None):
         stats["scenarios_with_straddling_frame"] += 1
     if bound_after_straddle:
         stats["scenarios_straddle_then_connection_limit_reached"] += 1
+    for what in w.get("queue_bad", []):
+        bad.append((what, {"rule": "queue_order"}))
+    for k, v in (w.get("queue_stats") or {}).items():
+        stats["queue_" + k] += v
     if w["undecrypted"]:
         bad.append(("observer could not decrypt %d subject packets" % w["undecrypted"], {"rule": "observer"}))
     if w["progress"]:
@@ -1202,6 +1304,7 @@ def run(ctx):
         "final fair phase; distinct = distinct "
         "model op sequence, non-trivial = at least one STREAM frame call and one delivery outcome or MAX_* frame",
         {"known_finding_scenarios": dict(KNOWN_HITS), "wire_oracle_measured": dict(ORACLE_STATS),
+         "c06_f1_repair_in_tree": repaired_f1(),
          "exhaustive_small_scope": False})
 
 
